@@ -366,6 +366,10 @@ def run(repo: Repo, rep, tier: str):
     rep.guarded(check_equivalence, repo, rep, tier)
     rep.guarded(check_fast_orders_and_gaps, repo, rep, tier)
     rep.guarded(check_hook_market_orders, repo, rep, tier)
+    # the candles of the larger timeframes that a fill hook reads: the publisher of the partial candles is interpreted in the
+    # history of either simulator - the normal one has stored the executing minute before it matches it, the fast matcher has not
+    from props.c07 import check_partial
+    rep.guarded(check_partial, repo, rep, tier, "C12-R7")
     rep.undecided_item("equality of whole-session outputs (trades, balances) of the two simulators for arbitrary strategies - decided per span and structurally")
     rep.undecided_item("spans longer than two minutes / more than one fill per span (outside the property's precondition)")
 
